@@ -197,6 +197,7 @@ func runNode(sc Script) (out NodeOut) {
 	}
 	s := chainsim.New(cfg)
 	txCache := map[int][]byte{}
+	var cur BlockOut
 	for _, a := range sc.Actions {
 		if a.OnlyA && sc.Role != "A" {
 			continue
@@ -242,6 +243,25 @@ func runNode(sc Script) (out NodeOut) {
 				b.Data = append(b.Data, hex.EncodeToString(x.Data))
 			}
 			out.Blocks = append(out.Blocks, b)
+		case "begin":
+			s.BeginBlock(chainsim.BlockOpts{})
+			cur = BlockOut{H: s.Height, Codes: []string{}, Data: []string{}}
+		case "tx":
+			if !s.InBlock {
+				s.BeginBlock(chainsim.BlockOpts{})
+				cur = BlockOut{H: s.Height, Codes: []string{}, Data: []string{}}
+			}
+			for _, t := range a.Txs {
+				x := s.DeliverTx(buildTx(s, t))
+				cur.Codes = append(cur.Codes, fmt.Sprintf("%s/%d", x.Codespace, x.Code))
+				cur.Data = append(cur.Data, hex.EncodeToString(x.Data))
+			}
+		case "commit":
+			if s.InBlock {
+				s.EndBlock()
+				cur.Hash = hex.EncodeToString(s.Commit())
+				out.Blocks = append(out.Blocks, cur)
+			}
 		case "checktx":
 			r := s.CheckTx(buildTx(s, a.Tx))
 			out.Off = append(out.Off, fmt.Sprintf("checktx:%d", r.Code))
